@@ -9,4 +9,5 @@ go build -o bin/instr ./cmd/instr || exit 2
 rm -rf bin/c11-overlay && mkdir -p bin/c11-overlay
 ./bin/instr /repo "$PWD/bin/c11-overlay" "$PWD/sched/verifsync/verifsync.go" > bin/instr.log || exit 2
 go build -overlay bin/c11-overlay/overlay.json -o bin/c11 ./cmd/c11 || exit 2
+go build -race -overlay bin/c11-overlay/overlay-min.json -o bin/c11race ./cmd/c11 || exit 2
 echo "setup ok"
